@@ -184,11 +184,22 @@ def delitem (d : Dict) (k : Key) : DRes :=
 
 def clear (d : Dict) : DRes := ⟨[], d.map (fun e => .rem e.2), .none⟩
 
-/-- `pop(key)` / `pop(key, default)`; the default is returned as `Ret.none` -/
-def pop (d : Dict) (k : Key) (hasDefault : Bool) : DRes :=
+/-- `pop(key)` / `pop(key, default)`: `_to_del = key in self` is probed BEFORE the builtin pop, so
+    the remove event depends on the key being present, never on what the call returns — in
+    particular not on the default being the very object stored (`dflt = some x`: an item passed
+    as default, `none` with `hasDefault`: the default `None`) -/
+def pop (d : Dict) (k : Key) (hasDefault : Bool) (dflt : Option Item) : DRes :=
   match dGet d k with
   | some old => ⟨dDel d k, [.rem old], .val old⟩
-  | none => if hasDefault then ⟨d, [], .none⟩ else ⟨d, [], .err .keyError⟩
+  | none =>
+    if hasDefault then ⟨d, [], match dflt with | some x => .val x | none => .none⟩
+    else ⟨d, [], .err .keyError⟩
+
+/-- the seeded variant C38-D: "nothing was removed" inferred from `item is default` -/
+def popInfersFromDefault (d : Dict) (k : Key) (dflt : Item) : DRes :=
+  match dGet d k with
+  | some old => ⟨dDel d k, if old == dflt then [] else [.rem old], .val old⟩
+  | none => ⟨d, [], .val dflt⟩
 
 def popitem (d : Dict) : DRes :=
   match d.getLast? with
@@ -229,7 +240,7 @@ inductive DOp where
   | setitem (k : Key) (v : Item)
   | delitem (k : Key)
   | clear
-  | pop (k : Key) (hasDefault : Bool)
+  | pop (k : Key) (hasDefault : Bool) (dflt : Option Item)
   | popitem
   | setdefault (k : Key) (v : Item)
   | update (o : Dict)
@@ -242,7 +253,7 @@ def dStep (d : Dict) : DOp → DRes
   | .setitem k v => DictI.setitem d k v
   | .delitem k => DictI.delitem d k
   | .clear => DictI.clear d
-  | .pop k h => DictI.pop d k h
+  | .pop k h df => DictI.pop d k h df
   | .popitem => DictI.popitem d
   | .setdefault k v => DictI.setdefault d k v
   | .update o => DictI.update d o
@@ -255,7 +266,7 @@ def dPlain (d : Dict) : DOp → Option Dict
   | .setitem k v => some (dSet d k v)
   | .delitem k => if dHas d k then some (dDel d k) else none
   | .clear => some []
-  | .pop k h => if dHas d k then some (dDel d k) else if h then some d else none
+  | .pop k h _ => if dHas d k then some (dDel d k) else if h then some d else none
   | .popitem => match d.getLast? with | some (k, _) => some (dDel d k) | none => none
   | .setdefault k v => if dHas d k then some d else some (dSet d k v)
   | .update o => some (dUpdate d o)
